@@ -1,5 +1,53 @@
-(* Props/C02.v — placeholder; lens theorems are added from Proofs/Lens.v. *)
-From YQ Require Import Base.Str Model.Node Model.Store Model.Eval.
-Theorem C02_selfcheck : forall st, eval 1 ESelf false [] [] st = Ok ([], st).
-Proof. reflexivity. Qed.
-Print Assumptions C02_selfcheck.
+(* Props/C02.v — property theorems only. *)
+From YQ Require Import Base.Str Model.Node Model.Store Model.Eval Spec.Lens Proofs.LensProofs Proofs.AssignProofs.
+
+(* The update laws, for every simple path (keys and non-negative indices, of
+   any length, existing or to be created), every value and every document. *)
+Theorem C02_put_get : forall p v n n', put p v n = Some n' -> get p n' = Some v.
+Proof. exact put_get. Qed.
+Print Assumptions C02_put_get.
+
+Theorem C02_get_put : forall p v n, get p n = Some v -> put p v n = Some n.
+Proof. exact get_put. Qed.
+Print Assumptions C02_get_put.
+
+Theorem C02_put_put : forall p v1 v2 n n1, put p v1 n = Some n1 -> put p v2 n1 = put p v2 n.
+Proof. exact put_put. Qed.
+Print Assumptions C02_put_put.
+
+(* frame: a path that is neither a prefix nor an extension of p reads the same before and after *)
+Theorem C02_frame : forall p q v n n' w,
+  put p v n = Some n' -> incomparable p q = true -> get q n = Some w -> get q n' = Some w.
+Proof. exact put_frame. Qed.
+Print Assumptions C02_frame.
+
+(* sequences are padded with null *)
+Theorem C02_pads_with_null : forall i v items n',
+  put [SIdx i] v (Seq items) = Some n' ->
+  forall j, (length items <= j < i)%nat -> get [SIdx j] n' = Some null_node.
+Proof. exact put_pads_with_null. Qed.
+Print Assumptions C02_pads_with_null.
+
+(* The tie between the evaluator model and the lens, proved (not sampled) for
+   key paths of any length: `.k1.k2...kn = scalar` on the evaluator leaves
+   exactly the document [put] describes (missing maps created, null re-typed).
+   Index steps, container values, |= and op= are tied by the correspondence
+   check only: partial. *)
+Theorem C02_assign_is_put_keys_partial : forall ks t v doc fuel,
+  ks <> [] -> (length ks + 3 <= fuel)%nat -> no_wild ks ->
+  forall n', put (List.map SKey ks) (Scalar t v) doc = Some n' ->
+  exists st', eval fuel (EAssign (pk ks) (ELit t v)) false [] [(O, [])] (init_store doc) = Ok ([(O, [])], st')
+              /\ deref st' (O, []) = Some n'.
+Proof. exact assign_is_put. Qed.
+Print Assumptions C02_assign_is_put_keys_partial.
+
+(* non-vacuity: a path that creates a map under null and a padded sequence *)
+Example C02_example :
+  let doc := Map [([97], Scalar TNull [110; 117; 108; 108]); ([98], Seq [(RIdx 0, Scalar TInt [49])])] in
+  put [SKey [97]; SKey [99]] (Scalar TInt [55]) doc
+    = Some (Map [([97], Map [([99], Scalar TInt [55])]); ([98], Seq [(RIdx 0, Scalar TInt [49])])])
+  /\ put [SKey [98]; SIdx 2] (Scalar TInt [55]) doc
+    = Some (Map [([97], Scalar TNull [110; 117; 108; 108]);
+                 ([98], Seq [(RIdx 0, Scalar TInt [49]); (RIdx 1, null_node); (RIdx 2, Scalar TInt [55])])])
+  /\ incomparable [SKey [97]; SKey [99]] [SKey [98]; SIdx 0] = true.
+Proof. vm_compute. repeat split. Qed.
